@@ -1,3 +1,4 @@
+import re
 """C15 — extracted vertices and face polygons form a valid convex polytope (type-state clauses)."""
 from .. import interp as I, nf, dtab, witness
 from ..nf import RF, as_rf
@@ -28,7 +29,7 @@ META = {
               'lies on a touching plane and leaves coincident vertices and zero-area faces (polygons not simple, V - E + F != 2)',
         'R7': 'face incidence bookkeeping in with_faces: one vertex list per clipping plane; every vertex index is appended to the lists of exactly its three dual planes (dual[0], dual[1], dual[2], '
               'once each, unconditionally); each list is ordered by sort_face_vertices for its own plane; a face is created for list i iff it is non-empty, with clipping_plane = i, '
-              'vertex_count = len(list i) and vertex_offset = running sum of the previous counts (from 0); the connection array is the in-order concatenation of the lists',
+              'vertex_count = len(list i) and vertex_offset = running sum of the previous counts (from 0); the connection array is the in-order concatenation of the lists; no count, offset or index of the cell and its face table is narrowed below 32 bits',
         'R6': 'accessors: clipping_plane/neighbour/shift of face f read the half-space faces[f].clipping_plane; face_vertices(f) is connections[offset .. offset+count] of the same face; '
               'the face decomposition labels its tetrahedra with that same plane index',
     },
@@ -397,7 +398,38 @@ def r6(ctx, F, rule, sfx):
         ctx.check(rule, 'face-decomposition-fans-from-first-vertex' + sfx, vs == want, [x[-40:] for x in vs], 'fan (v[0], v[k], v[k+1]) over the face\'s vertex list', where(nb), key_extra='fan')
 
 
+def no_narrow_bookkeeping(ctx, F, rule, sfx):
+    """Counts, offsets and plane / vertex indices of the cell and its derived face table keep the width of usize: a run-time integer narrowed below
+    32 bits (`as u8`, `as u16`), or a field of that width in the face record, bounds the number of corners of a face / planes of a cell (a face
+    with 256 corners is reachable: a generator ringed by 256 neighbours in its own plane)."""
+    W = {'u8': 8, 'i8': 8, 'u16': 16, 'i16': 16, 'u32': 32, 'i32': 32, 'u64': 64, 'i64': 64, 'usize': 64, 'isize': 64, 'u128': 128, 'i128': 128}
+    n = 0
+    bad = []
+    for b in F.bodies:
+        if not (b.get('file') or '').startswith('src/voronoi') or 'convex_cell_alternative' in (b.get('file') or '') or '::tests::' in b['path']:
+            continue
+        for bl in b['blocks']:
+            if bl.get('cleanup'):
+                continue
+            for st in bl['stmts']:
+                if st['k'] == 'assign' and st['rv']['k'] == 'cast' and st['rv'].get('kind') == 'IntToInt':
+                    n += 1
+                    fr, to = (st['rv'].get('from_ty') or '').strip(), (st['rv'].get('ty') or '').strip()
+                    if st['rv']['x'].get('k') != 'const' and fr in W and to in W and W[to] < W[fr] and W[to] < 32:
+                        bad.append('%s: %s as %s (line %s)' % (strip_generics(b['path']).split('::')[-1], fr, to, st.get('line')))
+    narrow_fields = []
+    for a in F.adts:
+        if (a.get('file') or '').startswith('src/voronoi') and 'convex_cell_alternative' not in (a.get('file') or ''):
+            for v in a.get('variants', [])[:1]:
+                for f in v['fields']:
+                    if re.search(r'(^|[<\[( ])([ui](8|16))\b', f['ty']):
+                        narrow_fields.append('%s.%s: %s' % (a['path'].split('::')[-1], f['name'], f['ty']))
+    ctx.check(rule, 'bookkeeping-keeps-the-width-of-usize' + sfx, not bad and not narrow_fields, (bad[:2] + narrow_fields[:3]) or '%d integer casts in src/voronoi*, none narrowing a run-time value below 32 bits; no 8- or 16-bit field' % n,
+              'no count, offset or index of the cell / its face table narrowed below 32 bits', 'src/voronoi/convex_cell.rs', key_extra='narrow')
+
+
 def r7(ctx, F, rule, sfx):
+    no_narrow_bookkeeping(ctx, F, rule, sfx)
     wfb = with_faces_impl(F)
     srt = [x['path'] for x in F.bodies if x['path'].endswith('::sort_face_vertices')]
     ip = I.Interp(F, no_inline=srt + [x['path'] for x in F.bodies if x['path'].endswith('::transition')])
